@@ -688,7 +688,8 @@ def build_space(tier):
         for bc in bcs:
             has_n = 'neumann' in bc
             for red in ((0, 0), (1, 1)) if quick else ((0, 0), (1, 1), (1, 0), (0, 1)):
-                nords = [None] + ([(1, 1)] if has_n else []) + ([(2, 2), (4, 1)] if has_n and not quick else [])
+                # explicit Neumann closure orders below, at and ABOVE the interior order (3 > order for order 1, 2; 5 for 3, 4)
+                nords = [None] + ([(1, 1), (3, 3)] if has_n else []) + ([(2, 2), (4, 1), (5, 5), (5, 2)] if has_n and not quick else [])
                 for no in nords:
                     for k, size in enumerate(sizes + ((2 * w,) if any(red) else ())):
                         ivs = INTERVALS if (not quick and k == 0) else [INTERVALS[(size + st['order']) % 3]]
